@@ -285,8 +285,8 @@ func (x *Uint32) CompareAndSwap(old, new uint32) (swapped bool) {
 
 // ---- function forms ----
 
-func LoadInt64(addr *int64) int64        { intPoint("Load"); return atomic.LoadInt64(addr) }
-func StoreInt64(addr *int64, val int64)  { intPoint("Store"); atomic.StoreInt64(addr, val) }
+func LoadInt64(addr *int64) int64         { intPoint("Load"); return atomic.LoadInt64(addr) }
+func StoreInt64(addr *int64, val int64)   { intPoint("Store"); atomic.StoreInt64(addr, val) }
 func AddInt64(addr *int64, d int64) int64 { intPoint("Add"); return atomic.AddInt64(addr, d) }
 func SwapInt64(addr *int64, new int64) int64 {
 	intPoint("Swap")
@@ -296,8 +296,8 @@ func CompareAndSwapInt64(addr *int64, old, new int64) bool {
 	intPoint("CompareAndSwap")
 	return atomic.CompareAndSwapInt64(addr, old, new)
 }
-func LoadUint64(addr *uint64) uint64         { intPoint("Load"); return atomic.LoadUint64(addr) }
-func StoreUint64(addr *uint64, val uint64)   { intPoint("Store"); atomic.StoreUint64(addr, val) }
+func LoadUint64(addr *uint64) uint64          { intPoint("Load"); return atomic.LoadUint64(addr) }
+func StoreUint64(addr *uint64, val uint64)    { intPoint("Store"); atomic.StoreUint64(addr, val) }
 func AddUint64(addr *uint64, d uint64) uint64 { intPoint("Add"); return atomic.AddUint64(addr, d) }
 func SwapUint64(addr *uint64, new uint64) uint64 {
 	intPoint("Swap")
@@ -307,15 +307,15 @@ func CompareAndSwapUint64(addr *uint64, old, new uint64) bool {
 	intPoint("CompareAndSwap")
 	return atomic.CompareAndSwapUint64(addr, old, new)
 }
-func LoadInt32(addr *int32) int32        { intPoint("Load"); return atomic.LoadInt32(addr) }
-func StoreInt32(addr *int32, val int32)  { intPoint("Store"); atomic.StoreInt32(addr, val) }
+func LoadInt32(addr *int32) int32         { intPoint("Load"); return atomic.LoadInt32(addr) }
+func StoreInt32(addr *int32, val int32)   { intPoint("Store"); atomic.StoreInt32(addr, val) }
 func AddInt32(addr *int32, d int32) int32 { intPoint("Add"); return atomic.AddInt32(addr, d) }
 func CompareAndSwapInt32(addr *int32, old, new int32) bool {
 	intPoint("CompareAndSwap")
 	return atomic.CompareAndSwapInt32(addr, old, new)
 }
-func LoadUint32(addr *uint32) uint32         { intPoint("Load"); return atomic.LoadUint32(addr) }
-func StoreUint32(addr *uint32, val uint32)   { intPoint("Store"); atomic.StoreUint32(addr, val) }
+func LoadUint32(addr *uint32) uint32          { intPoint("Load"); return atomic.LoadUint32(addr) }
+func StoreUint32(addr *uint32, val uint32)    { intPoint("Store"); atomic.StoreUint32(addr, val) }
 func AddUint32(addr *uint32, d uint32) uint32 { intPoint("Add"); return atomic.AddUint32(addr, d) }
 func CompareAndSwapUint32(addr *uint32, old, new uint32) bool {
 	intPoint("CompareAndSwap")
